@@ -11,7 +11,8 @@ RULE = ("seeded random continua up to 2x9, 3x9, 4x5, 5x3 units x pooled dissimil
         "complete grids '2 annotators x <=3 units' (6 segments x 2 labels) and '3 annotators x <=2 units' (6 "
         "segments); dense 3x24 .. 3x26 / 4x11 continua with more than 10 000 candidates; unlabelled units in a quarter of the cases whose dissimilarity needs no "
         "label; a block with delta_empty 1e-4 .. 1e-6 (compared in units of delta_empty); a corpus of continua whose programme has an integrality gap (LP relaxation below the integer optimum, so "
-        "that the solvers must branch; mined off-line, judged at run time); 10 % of the random cases are editing sessions (compute, edit the same continuum object, compute again); "
+        "that the solvers must branch; mined off-line, judged at run time); 10 % of the random cases are editing sessions (compute, edit the same continuum object, compute again; with a label-matrix dissimilarity "
+        "the steps alternate between two instances of equal class, delta_empty, categories and weights but another matrix / other positions); "
         "non-trivial = at least 2 units and 2 non-empty annotators; distinct by SHA-1 of the case")
 ASSUMPTIONS = [
     "pair costs are read from the dissimilarity's compiled d_mat on arrays built by the harness (a formula error "
@@ -40,13 +41,16 @@ def check_case(ctx, case):
         # one continuum object and one dissimilarity object: compute, edit, compute again (stale caches show here)
         _, pool = ac.setup(ctx)
         continuum = cases.build_continuum(case["continuum"])
-        for op in [None] + case["session"]:
+        for k, op in enumerate([None] + case["session"]):
             if op is not None:
                 ac.apply_edit(continuum, op)
             if not continuum or len(continuum.annotators) < 2:
                 continue
             ctx.count("M-SESSION")
-            step = {"continuum": cases.spec_of(continuum), "dissim": case["dissim"], "backend": case["backend"], "want": "auto"}
+            # (with "dissim_alt": the steps alternate between two dissimilarities of the same class, delta_empty, categories and
+            # weights that measure differently - another matrix, other positions)
+            dspec = case["dissim_alt"] if (case.get("dissim_alt") and k % 2 == 1) else case["dissim"]
+            step = {"continuum": cases.spec_of(continuum), "dissim": dspec, "backend": case["backend"], "want": "auto"}
             _check(ctx, step, continuum)
         return
     _check(ctx, case, None)
@@ -159,6 +163,10 @@ def run(ctx):
         if ctx.rng.random() < 0.1 and cases.spec_num_units(case["continuum"]) <= 12:
             labels = cases.dissim_labels(case["dissim"]) or cases.LABELS_SMALL
             case["session"] = ac.gen_edit_ops(ctx.rng, case["continuum"], labels, ctx.rng.randint(2, 4))
+            alt = ac.same_parameters_other_measure(ctx.rng, case["dissim"])
+            if alt is not None:
+                case["dissim_alt"] = alt
+                case["session"] = [["reset_bounds"]] + case["session"]      # (a step that leaves the units as they are comes first)
         cs = case["continuum"]
         nonempty = sum(1 for us in cs["ann"].values() if us)
         ctx.begin_case(case, nontrivial=cases.spec_num_units(cs) >= 2 and nonempty >= 2)
